@@ -116,6 +116,13 @@ CLAIMS = {
         'model reader+renderer gives for the log the program denotes; an independent python rendering of the documented notation is compared with code and model on typed wire-level logs.',
    note=NOTE_COMMON + 'tools/gen_log.py, gen_mser.py, gen_wire.py; python framing of entries; the programs are built with UBSan only so that allocator reuse of freed channels is observable; named-macro clocks (clockNow) are not compared.',
    design='4/C07', technique='Coq round-trip and substitution proofs on the reader/renderer model + generated-program differential execution + independent reference rendering'),
+ 'C20': dict(
+   text='Theorems (Coq, closed): C20_output_is_whole_entries (for EVERY byte string given as the image, what the tool writes is a sequence of complete size-prefixed entries - scanning, both block readers, the wrap-around read, sorting and concatenation), '
+        'C20_inconsistent_queue_rejected (write index, data end or read index above the capacity: the queue contributes nothing, whatever follows), C20_oversized_metadata_rejected (a size field beyond the rest of the image: nothing is read or allocated), '
+        'instantiated with the checks and magic numbers read off brecovery.cpp / Session.hpp on every run. Termination of the model is structural (each step consumes input). Memory safety and exit status of the real binary are observed: '
+        'the brecovery binary built from the tree with ASan+UBSan and assertions runs on every generated image (genuine blocks, hostile fields 0..2^64-1, truncations, nested magics, junk) and its output file must equal the model\'s bytes.',
+   note=NOTE_COMMON + 'std::ifstream semantics (ignore/read/seekg/tellg/clear after failure) are modelled as list operations and tied by correspondence only; std::sort modelled as stable insertion sort (images hold <= 12 blocks).',
+   design='4/C20', technique='Coq proof over a functional model of brecovery (inductive whole-entries predicate, permutation of the sort) + differential execution of the real binary under sanitizers'),
 }
 REASON_NOT_BUILT = 'not built yet in this round: no theorem/correspondence for it is registered; not claimed at a lower level by another technique'
 m = {'version': 1, 'setup_cmd': './setup.sh',
